@@ -65,11 +65,15 @@ func locID(l *Loc) *Term {
 type havocRec struct {
 	prefix string
 	epoch  int
+	framed bool // loop-head havoc inside a function with an assigns clause: the new arrays obey the frame
 }
 
 type Heap struct {
 	arr    map[string]*Term
 	havocs []havocRec
+	// arrays created under a framed havoc whose frame fact has not been assumed yet
+	newFramed []string
+	framedSym map[string]*Term
 }
 
 var havocEpoch int
@@ -78,6 +82,15 @@ func (h *Heap) clone() *Heap {
 	n := &Heap{arr: make(map[string]*Term, len(h.arr)), havocs: append([]havocRec{}, h.havocs...)}
 	for k, v := range h.arr {
 		n.arr[k] = v
+	}
+	if len(h.newFramed) > 0 {
+		n.newFramed = append([]string{}, h.newFramed...)
+	}
+	if len(h.framedSym) > 0 {
+		n.framedSym = make(map[string]*Term, len(h.framedSym))
+		for k, v := range h.framedSym {
+			n.framedSym[k] = v
+		}
 	}
 	return n
 }
@@ -97,20 +110,29 @@ func (h *Heap) get(name string, s Sort) *Term {
 		}
 		return t
 	}
-	ep := 0
+	ep, framed := 0, false
 	for _, r := range h.havocs {
 		if r.prefix == "*" || strings.HasPrefix(name, r.prefix) {
-			ep = r.epoch
+			ep, framed = r.epoch, r.framed
 		}
 	}
 	t := Var(fmt.Sprintf("H%d$%s", ep, name), s)
 	h.arr[name] = t
+	if framed {
+		if h.framedSym == nil {
+			h.framedSym = map[string]*Term{}
+		}
+		h.framedSym[name] = t
+		h.newFramed = append(h.newFramed, name)
+	}
 	return t
 }
 
-func (h *Heap) havocPrefix(prefix string) {
+func (h *Heap) havocPrefix(prefix string) { h.havocPrefixF(prefix, false) }
+
+func (h *Heap) havocPrefixF(prefix string, framed bool) {
 	havocEpoch++
-	h.havocs = append(h.havocs, havocRec{prefix, havocEpoch})
+	h.havocs = append(h.havocs, havocRec{prefix, havocEpoch, framed})
 	for k := range h.arr {
 		if prefix == "*" || strings.HasPrefix(k, prefix) {
 			delete(h.arr, k)
